@@ -1083,15 +1083,39 @@ def solve_repeat(tier="quick", seed=0, only=None):
                 d2 = _same_trajectory(fresh, again)
                 if d2:
                     failures.append(dict(label=f"C10:solve_after_an_unrelated_solve_sharing_the_Params_object_differs:{pol}", input=inp, observed=d2))
+    # a parameter sweep on ONE Params object: after a solve the caller changes a field and solves again with a new
+    # Solver - the result must be the one a fresh Params object with the same field values gives (nothing derived
+    # from the parameters may be remembered on the object)
+    import dataclasses as _dc
+
+    sweeps = [("precision", enum("Precision", "Single")), ("opt_tol", 1e-3), ("rho", 1.0), ("lamb_init", 1e-2), ("newton_type", enum("NewtonType", "Full"))]
+    for name in names[:1] if tier == "quick" else names:
+        mk, x0, y0 = S[name]
+        for field, value in sweeps:
+            inp = dict(scenario=name, level="parameter-sweep", field=field)
+            if only is not None and only != inp:
+                continue
+            params = mk_params(iteration_limit=25)
+            run(mk(), params, x0, y0)
+            setattr(params, field, value)
+            swept = run(mk(), params, x0, y0)
+            fresh_params = type(params)(**{f_.name: getattr(params, f_.name) for f_ in _dc.fields(params)})
+            ref = run(mk(), fresh_params, x0, y0)
+            cases += 1
+            d3 = _same_trajectory(ref, swept)
+            if d3 is None and ref.result is not None and swept.result is not None and ref.result.x.dtype != swept.result.x.dtype:
+                d3 = f"result dtype {swept.result.x.dtype} vs {ref.result.x.dtype}"
+            if d3:
+                failures.append(dict(label=f"C10:solve_after_changing_a_field_of_a_used_Params_object_differs_from_a_fresh_Params:{field}", input=inp, observed=d3))
     seen, uniq = set(), []
     for f in failures:
         if f["label"] not in seen:
             seen.add(f["label"])
             uniq.append(f)
-    return result(cases, uniq, f"scenarios {names} x 6 penalty policies x controllers; 40 iterations")
+    return result(cases, uniq, f"scenarios {names} x 6 penalty policies x controllers; 40 iterations; parameter sweeps on one Params object")
 
 
-@native("native.solve.kkt_scaled", ["C01", "C04"])
+@native("native.solve.kkt_scaled", ["C01", "C04", "C05"])
 def solve_kkt_scaled(tier="quick", seed=0, only=None):
     """bounded: the C01 oracle (independent dense KKT check of the USER's problem with the scaled tolerances) on
     solves under custom power-of-two scalings (incl. non-zero objective weight) and the automatic scalings"""
@@ -1111,6 +1135,9 @@ def solve_kkt_scaled(tier="quick", seed=0, only=None):
         variants = [("custom", dict(vw=rng.integers(-2, 3, n), cw=rng.integers(-2, 3, m), ow=int(o))) for o in (0, 2, -1)]
         if tier != "quick":
             variants += [("custom", dict(vw=rng.integers(-3, 4, n), cw=rng.integers(-3, 4, m), ow=int(rng.integers(-3, 4)))) for _ in range(4)]
+        # weights handed over as SMALL integer types and of large magnitude (Scaling accepts any integer dtype):
+        # the exact power-of-two mapping must not depend on the integer width
+        variants += [("custom_int8", dict(vw=np.full(n, e, dtype=np.int8), cw=np.zeros(m, dtype=np.int8), ow=0)) for e in (-20, 30)]
         for kind, w in variants:
             for ss in (["Symmetric"] if tier == "quick" else ["Symmetric", "Standard"]):
                 inp = dict(scenario=name, scaling=kind, var_weights=w["vw"].tolist(), cons_weights=w["cw"].tolist(), obj_weight=w["ow"], step_solver=ss)
@@ -1121,16 +1148,16 @@ def solve_kkt_scaled(tier="quick", seed=0, only=None):
                 problem = mk()
                 rec = run(problem, params, x0, y0)
                 cases += 1
+                bad = box_failures(rec, problem)  # judged whatever the run ends in
+                if bad and not any(f["label"] == "C05:scaled:evaluation_outside_box" for f in failures):
+                    failures.append(dict(label="C05:scaled:evaluation_outside_box", input=inp, observed=repr(bad[0])[:200]))
                 if rec.exc is not None or rec.result is None:
                     continue
                 if rec.result.status == SolverStatus.Optimal:
                     for lab, data in kkt_failures(problem, rec.result, params, scaling=sc):
                         if not any(f["label"] == "C01:scaled:" + lab for f in failures):
                             failures.append(dict(label="C01:scaled:" + lab, input=inp, observed=repr(data)[:300]))
-                bad = box_failures(rec, problem)
-                if bad and not any(f["label"] == "C05:scaled:evaluation_outside_box" for f in failures):
-                    failures.append(dict(label="C05:scaled:evaluation_outside_box", input=inp, observed=repr(bad[0])[:200]))
-    return result(cases, failures, f"scenarios {names} x custom scalings (weights in [-2,2], obj_weight in {{0,2,-1}})")
+    return result(cases, failures, f"scenarios {names} x custom scalings (weights in [-2,2], obj_weight in {{0,2,-1}}; int8 weights -20 / +30)")
 
 
 @native("native.solve.degenerate", ["C06"])
